@@ -288,6 +288,46 @@ def bounded(rep, tier, seed):
                 replay=dict(reproduced=True, detail=f'conf {cn}: {f}'[:300]), replay_script=script)
     rep.bounded.append(dict(kind='generated modules through the real BeartypeNodeTransformer, structural clauses checked on the output (bounded stand-in, NOT counted as proved)', modules_x_confs=cases, failing=len(fails), confs=4))
 
+def import_tracking(rep):
+    """decorator placement depends on which decorator-hostile packages the module imported (beforelist).  (S) the loops of visit_Import /
+    visit_ImportFrom over the imported names visit EVERY name (no return / break inside the loop body).  (b) spelling the same imports as one
+    statement or several, and with or without other packages in between, yields the same transformed decorators."""
+    import inspect
+    from pyvc import funcmode
+    import beartype.claw._ast._kind.clawastimport as imod
+    cls = next(v for k, v in vars(imod).items() if isinstance(v, type) and hasattr(v, 'visit_Import') and 'visit_Import' in vars(v))
+    for meth in ('visit_Import', 'visit_ImportFrom'):
+        if meth not in vars(cls): continue
+        fobj, node, _ = funcmode.load('beartype/claw/_ast/_kind/clawastimport.py', f'{cls.__name__}.{meth}')
+        loops = [n for n in ast.walk(node) if isinstance(n, ast.For) and 'names' in ast.unparse(n.iter)]
+        for li, lp in enumerate(loops):
+            early = [x for b in lp.body for x in ast.walk(b) if isinstance(x, (ast.Return, ast.Break))]
+            rep.add(f'C05.{meth}.loop{li}.visits_every_imported_name', 'proved' if not early else 'refuted', backend='structural',
+                    where=f'the loop over the names of one import statement has {len(early)} return/break statement(s) in its body (line {early[0].lineno if early else "-"}): a name after an unlisted one would never be tracked')
+        if meth == 'visit_Import' and not loops: rep.error('C05.visit_Import: no loop over node.names found')
+    # bounded: equivalent spellings of the same imports give the same decorator positions
+    from beartype.claw._ast.clawastmain import BeartypeNodeTransformer
+    from beartype import BeartypeConf
+    from beartype.claw._package._clawpkgmake import make_conf_hookable
+    beforelist_pkgs = sorted(getattr(getattr(imod, 'CLAW_BEFORELIST', None), 'schema_package_names', []) or [])
+    try:
+        from beartype.claw._ast._scope.clawastscopebefore import BeartypeNodeScopeBeforelist
+    except Exception: pass
+    def decos(src):
+        tree = ast.parse(src)
+        tr = BeartypeNodeTransformer(module_name='c05_imp', conf=BeartypeConf())
+        out = tr.visit(tree); ast.fix_missing_locations(out)
+        return [[ast.unparse(d) for d in n.decorator_list] for n in ast.walk(out) if isinstance(n, (ast.FunctionDef, ast.ClassDef))]
+    BODY = "app = {m}.Celery()\n@app.task\ndef add(x: int, y: int) -> int:\n    return x + y\n"
+    try:
+        ref = decos('import celery\n' + BODY.format(m='celery'))
+        for label, imp in (('two statements', 'import os\nimport celery\n'), ('one statement, listed package last', 'import os, celery\n'), ('one statement, listed package first', 'import celery, os\n')):
+            got = decos(imp + BODY.format(m='celery'))
+            rep.add(f'C05.import_tracking.bounded[{label}]', 'proved' if got == ref else 'refuted', backend='runtime-contract', where=f'decorators {got} vs {ref} for `import celery`', solver_output='bounded run-time contract through the real transformer (not a proof)',
+                    replay=dict(reproduced=got != ref, detail=f'{imp.strip()!r}: transformed decorators {got}, with a plain `import celery`: {ref}'))
+    except Exception as e:
+        rep.error(f'C05 import_tracking bounded: {type(e).__name__}: {e}'[:300])
+
 def isolation(rep):
     """last sentence of C05: a definition beartype cannot handle is left unchecked with a warning while every other definition - including
     sibling methods of the same class - is still checked.  (F) beartype_object / _beartype_object_nonfatal: under a non-fatal configuration
@@ -402,7 +442,7 @@ def main(tier, seed):
     except Exception: rep.error('C05 funcmode: ' + traceback.format_exc()[-2500:])
     try: bounded(rep, tier, seed)
     except Exception: rep.error('C05 bounded: ' + traceback.format_exc()[-2500:])
-    for fn in (isolation, isolation_bounded):
+    for fn in (import_tracking, isolation, isolation_bounded):
         try: fn(rep)
         except Exception: rep.error(f'C05 {fn.__name__}: ' + traceback.format_exc()[-2500:])
     files = ['beartype/claw/_ast/clawastmain.py', 'beartype/claw/_ast/_kind/clawastassign.py', 'beartype/claw/_ast/_kind/clawastmodule.py', 'beartype/claw/_ast/_kind/clawastimport.py']
